@@ -32,13 +32,27 @@ type scriptConn struct {
 	in    *bytes.Reader
 	chunk int
 	out   bytes.Buffer
+	// a client that writes in several pieces and, after each piece, waits for the
+	// replies before it sends more: the next piece is handed out only when the server
+	// asks for input it does not have; snaps[k] = how much of the reply stream had
+	// reached the client at that moment (after piece k was consumed)
+	segs  [][]byte
+	snaps []int
 }
 
 func (c *scriptConn) Read(p []byte) (int, error) {
 	c.mu.Lock()
 	defer c.mu.Unlock()
 	if c.in.Len() == 0 {
-		return 0, io.EOF
+		c.snaps = append(c.snaps, c.out.Len())
+		if len(c.segs) == 0 {
+			return 0, io.EOF
+		}
+		c.in = bytes.NewReader(c.segs[0])
+		c.segs = c.segs[1:]
+		if c.in.Len() == 0 {
+			return 0, io.EOF
+		}
 	}
 	n := len(p)
 	if c.chunk > 0 && n > c.chunk {
@@ -77,6 +91,13 @@ func init() {
 			m, _ := p.(map[string]interface{})
 			po := Op(m)
 			conn := &scriptConn{in: bytes.NewReader([]byte(po.str("input"))), chunk: po.num("chunk", 0)}
+			if segs := po.strs("segments"); len(segs) > 0 {
+				// "segments": the client's writes; "input" is ignored
+				conn.in = bytes.NewReader([]byte(segs[0]))
+				for _, sg := range segs[1:] {
+					conn.segs = append(conn.segs, []byte(sg))
+				}
+			}
 			done := make(chan string, 1)
 			go func() {
 				defer func() {
@@ -100,6 +121,7 @@ func init() {
 			conn.mu.Lock()
 			res["out"] = b2s(conn.out.Bytes())
 			res["unread"] = conn.in.Len()
+			res["snaps"] = append([]int(nil), conn.snaps...)
 			conn.mu.Unlock()
 			if obs := po.strs("observe"); len(obs) > 0 && res["returned"] == true {
 				stored := map[string]interface{}{}
@@ -156,6 +178,17 @@ func storedMessages(w *World, addr string) interface{} {
 			cur[1] = cur[1].(string) + t
 		}
 		if b, ok := r[3].(int64); ok && b != 0 {
+			// the part's text lives in a blob of the shared store (parts above 1 KB)
+			var bid int64
+			if err := udb.QueryRow("SELECT blob_id FROM message_parts WHERE message_id = ? AND blob_id IS NOT NULL ORDER BY id LIMIT 1", r[0]).Scan(&bid); err == nil {
+				brows, err := queryRows(mgr.GetSharedDB(), "SELECT COALESCE(content, '') FROM blobs WHERE id = ?", bid)
+				if err == nil && len(brows) == 1 {
+					if t, ok := brows[0][0].(string); ok {
+						cur[1] = cur[1].(string) + t
+						continue
+					}
+				}
+			}
 			cur = append(cur, "blob")
 		}
 	}
